@@ -106,7 +106,7 @@ def _registry(ctx, rep):
         else:
             rep.ok("registered", rule_construct(r, "decorator"), r.where, nontrivial=False)
     # registry pairing in fwrapper
-    rm = ctx.mod("ctparse.rule")
+    rm = ctx.imod("ctparse.rule")
     fw = rm.func("rule.fwrapper")
     fparam = fw.args.args[0].arg
     ok_key = ok_val = ok_call = False
@@ -164,69 +164,75 @@ def _patterns(ctx, rep):
 
 
 def _ids(ctx, rep):
-    rm = ctx.mod("ctparse.rule")
+    """id allocation of rule.py, decided on the folded registration (e1.simulate_registration):
+    the body of rule._map with its helpers inlined, constant-propagated for a fresh pattern text
+    and for a text that is already in the table."""
+    rm = ctx.imod("ctparse.rule")
     f = rm.func("rule._map")
-    pname = f.args.args[0].arg
-    stmts = list(ast.walk(f))
-    # find the lookup-then-return
-    lookup_line = None
-    table = None
-    for n in stmts:
-        if isinstance(n, ast.If) and isinstance(n.test, ast.Compare) and len(n.test.ops) == 1 \
-                and isinstance(n.test.ops[0], ast.In) and norm(n.test.left) == pname:
-            tname = norm(n.test.comparators[0])
-            for b in n.body:
-                if isinstance(b, ast.Return) and isinstance(b.value, ast.Call) and b.value.args and \
-                        norm(b.value.args[0]) == "{}[{}]".format(tname, pname):
-                    lookup_line = n.lineno
-                    table = tname
-    store_line = incr_line = None
-    cnt = None
-    for n in stmts:
-        if isinstance(n, ast.Assign) and len(n.targets) == 1 and table and \
-                norm(n.targets[0]) == "{}[{}]".format(table, pname):
-            store_line = n.lineno
-            cnt = norm(n.value)
-    for n in stmts:
-        if isinstance(n, ast.AugAssign) and cnt and norm(n.target) == cnt and \
-                isinstance(n.op, ast.Add) and norm(n.value) == "1":
-            incr_line = n.lineno
-    ok = lookup_line is not None and store_line is not None and incr_line is not None and \
-        lookup_line < store_line < incr_line
-    rep.add("id-sharing", rm.rel + "::rule._map::lookup-before-allocation", rm.where(f), ok,
-            "" if ok else "cannot find 'if p in T: return match(T[p])' followed by 'T[p] = counter' "
-            "and 'counter += 1' in this order: identical text may get two ids")
-    # returned id equals stored id
-    ret_ok = False
-    for n in stmts:
-        if isinstance(n, ast.Return) and isinstance(n.value, ast.Call) and n.value.args and cnt and \
-                incr_line and n.lineno > incr_line and norm(n.value.args[0]) == "{} - 1".format(cnt):
-            ret_ok = True
-        if isinstance(n, ast.Return) and isinstance(n.value, ast.Call) and n.value.args and cnt and \
-                store_line and incr_line and store_line <= n.lineno < incr_line and norm(n.value.args[0]) == cnt:
-            ret_ok = True
-    rep.add("id-sharing", rm.rel + "::rule._map::returned-id", rm.where(f), ret_ok,
-            "" if ret_ok else "the predicate is built for a different id than the one stored")
-    # the compiled-pattern table is keyed by the same counter
-    key_ok = any(isinstance(n, ast.Assign) and len(n.targets) == 1 and isinstance(n.targets[0], ast.Subscript)
-                 and norm(n.targets[0].value) == "_regex" and cnt and norm(n.targets[0].slice) == cnt
-                 for n in stmts)
-    rep.add("id-sharing", rm.rel + "::rule._map::compiled-table-key", rm.where(f), key_ok,
+    where = rm.where(f)
+    T1, T2 = "\ue000fresh+", "\ue000other+"
+    first = 4242
+    A = e1.simulate_registration(ctx.model, T1, counter=first)
+    # the tables by role, from what the fresh registration did to them
+    by_text = [k for k, v in A.after.items() if isinstance(v, dict) and T1 in v]
+    by_id_text = [k for k, v in A.after.items() if isinstance(v, dict) and any(x == T1 for x in v.values())]
+    by_id_comp = [k for k, v in A.after.items() if isinstance(v, dict)
+                  and any(isinstance(x, e1.Probe) for x in v.values())]
+    counters = [k for k, v in A.after.items() if isinstance(v, int) and A.before.get(k) == first]
+    fresh_id = A.predicate_ids[-1] if A.predicate_ids else None
+    ok = A.raised is None and len(by_text) == 1 and fresh_id == first and A.after[by_text[0]].get(T1) == first
+    rep.add("id-sharing", rm.rel + "::rule._map::returned-id", where, ok,
+            "" if ok else "a fresh text registered at counter {} is stored under {} and its predicate is built "
+            "for id {}".format(first, A.after[by_text[0]].get(T1) if by_text else None, fresh_id))
+    key_ok = bool(by_id_comp) and list(A.after[by_id_comp[0]].keys()) == [first] and bool(A.compiles)
+    rep.add("id-sharing", rm.rel + "::rule._map::compiled-table-key", where, key_ok,
             "" if key_ok else "compiled pattern stored under a different key than its id")
+    txt_ok = bool(by_id_text) and A.after[by_id_text[0]] == {first: T1}
+    rep.add("id-sharing", rm.rel + "::rule._map::id-to-text table", where, txt_ok,
+            "" if txt_ok else "the id -> text table does not map the new id to its text")
+    cnt_ok = len(counters) == 1 and A.after[counters[0]] == first + 1
+    rep.add("id-sharing", rm.rel + "::rule._map::counter advances by one", where, cnt_ok,
+            "" if cnt_ok else "after a fresh registration at {} the counter is {}".format(
+                first, A.after.get(counters[0]) if counters else None))
+    # a text that is already registered keeps its id and allocates nothing
+    ok_b = False
+    det = "no text -> id table found"
+    if len(by_text) == 1:
+        state = {k: v for k, v in A.after.items() if isinstance(v, dict)}
+        B = e1.simulate_registration(ctx.model, T1, counter=first + 1, prefill=state)
+        same = all(B.after.get(k) == (v if not isinstance(v, dict) else v) for k, v in state.items())
+        ok_b = B.raised is None and B.predicate_ids[-1:] == [first] and not B.compiles and same and \
+            all(B.after[c] == first + 1 for c in counters)
+        det = "" if ok_b else "registering the same text again gives id {} (first {}), compiles {} pattern(s), counter {}: " \
+            "identical text may get two ids".format(B.predicate_ids[-1:] or None, first, len(B.compiles),
+                                                   [B.after[c] for c in counters])
+        # and a different text gets the next id
+        C = e1.simulate_registration(ctx.model, T2, counter=first + 1, prefill=state)
+        nxt = C.raised is None and C.predicate_ids[-1:] == [first + 1] and C.after[by_text[0]].get(T2) == first + 1 \
+            and C.after[by_text[0]].get(T1) == first
+        rep.add("id-sharing", rm.rel + "::rule._map::distinct texts get distinct ids", where, nxt,
+                "" if nxt else "a second, different text is registered under id {}".format(C.predicate_ids[-1:]))
+    rep.add("id-sharing", rm.rel + "::rule._map::lookup-before-allocation", where, ok_b, det)
     # group name in the wrapped pattern is R<id>
     try:
         w, _ = e1.wrapped_pattern(ctx.model, "x", 4242)
         g_ok = "(?P<R4242>x)" in w
     except AnalysisError as e:
         g_ok = False
-    rep.add("id-sharing", rm.rel + "::rule._map::group-name", rm.where(f), g_ok,
+    rep.add("id-sharing", rm.rel + "::rule._map::group-name", where, g_ok,
             "" if g_ok else "wrapped pattern does not name its group R<id>")
-    # RegexMatch reads group "R{id}"
-    tm = ctx.mod("ctparse.types")
+    # RegexMatch reads group "R{id}": fold the value stored in self.key for id 4242
+    tm = ctx.imod("ctparse.types")
     init = tm.func("RegexMatch.__init__")
-    k_ok = any(isinstance(n, ast.Call) and isinstance(n.func, ast.Attribute) and n.func.attr == "format"
-               and isinstance(n.func.value, ast.Constant) and n.func.value.value == "R{}"
-               for n in ast.walk(init))
+    k_ok = False
+    idp = init.args.args[1].arg if len(init.args.args) > 1 else "id"
+    for n in ast.walk(init):
+        if isinstance(n, ast.Assign) and len(n.targets) == 1 and norm(n.targets[0]) == "self.key":
+            ev = e1.PureEval(ctx.model, tm, ctx.model.env("ctparse.types"))
+            try:
+                k_ok = ev.ev(n.value, {idp: 4242}) == "R4242"
+            except Undecided:
+                k_ok = False
     rep.add("id-sharing", tm.rel + "::RegexMatch.__init__::key", tm.where(init), k_ok,
             "" if k_ok else "RegexMatch no longer derives the group key 'R<id>'")
     ids = sorted(ctx.rb.text_of_id)
